@@ -21,10 +21,16 @@ def sh(cmd, cwd=None):
 
 def main():
     a = sys.argv[1:]
+    rnd = ""
+    if a and a[0] == "--round":
+        rnd = a[1]
+        a = a[2:]
     for prop, x in zip(a[0::2], a[1::2]):
-        wt = f"/tmp/seed-{prop}"
-        src = f"/tmp/seed-{prop}-out/{x}"
-        sid = f"{prop}-{x}"
+        wt = f"/tmp/seed{rnd}-{prop}"
+        src = f"/tmp/seed{rnd}-{prop}-out/{x}"
+        # round 2 deliverables A, B are kept as C, D (round 3: E, F ...)
+        letter = x if not rnd else chr(ord(x) + 2 * (int(rnd) - 1))
+        sid = f"{prop}-{letter}"
         if not os.path.exists(f"{src}/patch.diff") or not os.path.exists(f"{src}/demo_test.go"):
             print(f"{sid}: missing deliverables"); continue
         head = sh("git -C /repo rev-parse HEAD").stdout.strip()
@@ -66,7 +72,7 @@ def main():
         fails = [l for l in with_change.stdout.splitlines() if l.startswith("--- FAIL") or "panic:" in l or "fatal error" in l][:4]
         meta = {
             "property": prop,
-            "origin": f"independent sub-agent seed-{prop} (given only the property text and a scratch worktree), change {x}",
+            "origin": f"independent sub-agent seed{rnd}-{prop} (given only the property text" + (", one-line descriptions of the earlier seeded changes for this property" if rnd else "") + f" and a scratch worktree), change {x}",
             "files_touched": touched,
             "needs": "see README.md (what is needed for the change to manifest)",
             "ran": [
